@@ -161,6 +161,82 @@ theorem sanitizeRows_inv (hs : List (Option Str)) (hne : hs ≠ []) :
       · cases h
     · exact ih _ _ h hacc
 
+/-! ### `omit_empty_rows` -/
+
+theorem omitEmptyRows_idem (rows : List (List Str)) :
+    omitEmptyRows (omitEmptyRows rows) = omitEmptyRows rows := by
+  simp [omitEmptyRows, List.filter_filter]
+
+theorem omitEmptyRows_eq_self_iff (rows : List (List Str)) :
+    omitEmptyRows rows = rows ↔ ∀ r ∈ rows, keepRow r = true := by
+  unfold omitEmptyRows
+  exact List.filter_eq_self
+
+theorem omitEmptyRows_append (a b : List (List Str)) :
+    omitEmptyRows (a ++ b) = omitEmptyRows a ++ omitEmptyRows b := by
+  simp [omitEmptyRows]
+
+theorem mem_omitEmptyRows {rows : List (List Str)} {r : List Str} :
+    r ∈ omitEmptyRows rows ↔ r ∈ rows ∧ keepRow r = true := by
+  simp [omitEmptyRows]
+
+/-- rows that (after `str()`) have the header count go through the row loop of `_sanitize` as
+through `omit_empty_rows`: the all-empty ones disappear, the others stay, in order -/
+theorem sanitizeRows_filter (hs : List (Option Str)) :
+    ∀ (xrows : List (List XVal)) (acc : List (List Str)),
+      (∀ r ∈ xrows, (r.map cellStr).length = hs.length) →
+      (∀ r ∈ acc, r.length = hs.length) →
+      sanitizeRows hs xrows acc = .ok (acc ++ omitEmptyRows (xrows.map (fun r => r.map cellStr))) := by
+  intro xrows
+  induction xrows with
+  | nil => intro acc _ _; simp [sanitizeRows, omitEmptyRows]
+  | cons r rs ih =>
+    intro acc hrows hacc
+    have hlen := hrows r (by simp)
+    have htake : (r.map cellStr).take hs.length = r.map cellStr := by
+      rw [← hlen]; exact List.take_length
+    have hv := validRow_of_uniform hs hs.length rfl acc hacc (r.map cellStr) hlen
+    cases hk : keepRow (r.map cellStr) with
+    | true =>
+      have hany : (r.map cellStr).any (fun c => !c.isEmpty) = true := hk
+      simp only [sanitizeRows, htake, hany, hv, if_true]
+      rw [ih (acc ++ [r.map cellStr]) (fun x hx => hrows x (by simp [hx]))
+        (by intro x hx; simp only [List.mem_append, List.mem_singleton] at hx
+            rcases hx with hx | hx
+            · exact hacc x hx
+            · exact hx ▸ hlen)]
+      simp [omitEmptyRows, hk]
+    | false =>
+      have hany : (r.map cellStr).any (fun c => !c.isEmpty) = false := hk
+      simp only [sanitizeRows, htake, hany, Bool.false_eq_true, if_false]
+      rw [ih acc (fun x hx => hrows x (by simp [hx])) hacc]
+      simp [omitEmptyRows, hk]
+
+/-- EVERY grid (ragged, any cell values): when the row loop of `_sanitize` succeeds, what it
+returns is `omit_empty_rows` of the stringified rows cut to the header count -/
+theorem sanitizeRows_eq_omit (hs : List (Option Str)) :
+    ∀ (xrows : List (List XVal)) (acc out : List (List Str)),
+      sanitizeRows hs xrows acc = .ok out →
+      out = acc ++ omitEmptyRows (xrows.map (fun r => (r.map cellStr).take hs.length)) := by
+  intro xrows
+  induction xrows with
+  | nil => intro acc out h; simp [sanitizeRows] at h; simp [omitEmptyRows, h]
+  | cons r rs ih =>
+    intro acc out h
+    simp only [sanitizeRows] at h
+    split at h
+    · rename_i hany
+      split at h
+      · rw [ih _ _ h]
+        have hk : keepRow (List.take hs.length (List.map cellStr r)) = true := hany
+        simp [omitEmptyRows, hk]
+      · cases h
+    · rename_i hany
+      rw [ih _ _ h]
+      have hk : keepRow (List.take hs.length (List.map cellStr r)) = false := by
+        simpa [keepRow] using hany
+      simp [omitEmptyRows, hk]
+
 theorem popTrailingNone_of_last_some (hs : List (Option Str)) (l : Option Str)
     (hl : hs.getLast? = some l) (hsome : l.isSome = true) : popTrailingNone hs = hs := by
   unfold popTrailingNone
